@@ -5,3 +5,4 @@ import Bebop.Slice
 import Bebop.Stream
 import Bebop.Proofs.Enc
 import Bebop.Proofs.RoundTrip
+import Bebop.Proofs.NoPanic
